@@ -18,7 +18,7 @@ fn try_compile_on(schema_name: &str, text: &str) -> Result<bool, String> {
         .map_err(|p| p.downcast_ref::<String>().cloned().or_else(|| p.downcast_ref::<&str>().map(|s| s.to_string())).unwrap_or_default())
 }
 
-// @grid c10_grid_frontend_never_panics tier=quick bound="about 15000 documents: 0..3 operations and fragments; every sequence of up to 3 directives from a 17-element alphabet (valid, duplicated, malformed arguments) on a property, on an edge and on a fold; the repository's parse-error / frontend-error corpora; every kind of field name (property, list property, edge, parameterized edge, __typename, __schema, type name, unknown) x 8 selection shapes x 8 decorations at the root, nested, under a coercion and inside a fold; 22 filter operators x 14 property types x 8 argument forms (variables, tags of 5 types, malformed) on the nullables schema, shared variables, count filters; truncations of valid queries at every byte"
+// @grid c10_grid_frontend_never_panics tier=quick bound="about 15000 documents: 0..3 operations and fragments; every sequence of up to 3 directives from a 17-element alphabet (valid, duplicated, malformed arguments) on a property, on an edge and on a fold; the repository's parse-error / frontend-error corpora; every kind of field name (property, list property, edge, parameterized edge, __typename, __schema, type name, unknown) x 8 selection shapes x 8 decorations at the root, nested, under a coercion and inside a fold; 22 filter operators x 14 property types x 8 argument forms (variables, tags of 5 types, malformed) on the nullables schema, shared variables, count filters; 12 erroneous selections alone, before, after and inside a fold next to 6 valid siblings that use an outer tag, and in pairs; truncations of valid queries at every byte"
 // @ob for every document of the family, compiling against a valid schema returns Ok or Err and does not panic
 pub(crate) fn c10_grid_frontend_never_panics() {
     let mut n = 0u64;
@@ -61,7 +61,7 @@ pub(crate) fn c10_grid_frontend_never_panics() {
         check(&format!("directives after a fold count `{s}`"), &format!(r#"{{ Number(max: 3) {{ value @output(name: "v0") multiple(max: 2) @fold @transform(op: "count") {s} {{ value @output(name: "mv") }} }} }}"#), &mut failures);
         n += 4;
     }
-    // 3. the repository's error corpora and every kind of field name (property, list property, edge, parameterized edge, __typename, __schema, type name, unknown) x 8 selection shapes x 8 decorations at the root, nested, under a coercion and inside a fold; 22 filter operators x 14 property types x 8 argument forms (variables, tags of 5 types, malformed) on the nullables schema, shared variables, count filters; truncations of valid queries
+    // 3. the repository's error corpora and every kind of field name (property, list property, edge, parameterized edge, __typename, __schema, type name, unknown) x 8 selection shapes x 8 decorations at the root, nested, under a coercion and inside a fold; 22 filter operators x 14 property types x 8 argument forms (variables, tags of 5 types, malformed) on the nullables schema, shared variables, count filters; 12 erroneous selections alone, before, after and inside a fold next to 6 valid siblings that use an outer tag, and in pairs; truncations of valid queries
     for dir in ["parse_errors", "frontend_errors"] {
         let mut names: Vec<String> = std::fs::read_dir(format!("test_data/tests/{dir}")).unwrap().filter_map(|e| e.ok()).map(|e| e.file_name().to_string_lossy().to_string()).filter(|n| n.ends_with(".graphql.ron")).collect();
         names.sort();
@@ -109,6 +109,42 @@ pub(crate) fn c10_grid_frontend_never_panics() {
         if let Err(m) = try_compile_on("nullables", &q) { failures.insert(format!("count filter `{op}` with outputs {pr}: panic({})", m.lines().next().unwrap_or(""))); }
         n += 1;
     } }
+    // 6. an erroneous selection followed (or preceded) by siblings that keep using the surrounding state: the frontend
+    //    collects several errors per query, so it keeps going after the first one
+    let bad = [
+        r#"multiple(max: 2) @fold { value @filter(op: ">", value: ["%undefined"]) @output(name: "e1") }"#,
+        r#"multiple(max: 2) @fold { name @filter(op: ">", value: ["%t"]) @output(name: "e1") }"#,
+        r#"multiple(max: 2) @fold { nonexistent @output }"#,
+        r#"multiple(max: 2) @fold { value @output(name: "dup") name @output(name: "dup") }"#,
+        r#"multiple(max: 2) @fold { value @output(name: "e1") divisor @fold { value @filter(op: "<", value: ["%undefined"]) @output(name: "e2") } }"#,
+        r#"multiple(max: 2) @fold @transform(op: "count") @filter(op: ">", value: ["%undefined"])"#,
+        r#"multiple(max: 2) @fold { value @tag(name: "inner") @output(name: "e1") }"#,
+        r#"successor @optional { value @filter(op: ">", value: ["%undefined"]) @output(name: "e1") }"#,
+        r#"successor @recurse(depth: 2) { nonexistent @output }"#,
+        r#"successor { value @filter(op: "has_prefix", value: ["%t"]) @output(name: "e1") }"#,
+        r#"multiple { value @output(name: "e1") }"#,
+        r#"multiple(max: 2) @fold @optional { value @output(name: "e1") }"#,
+    ];
+    let good = [
+        r#"predecessor @fold { value @filter(op: "<", value: ["%t"]) @output(name: "s1") }"#,
+        r#"multiple(max: 3) @fold { value @output(name: "s1") divisor @fold { value @filter(op: "<", value: ["%t"]) @output(name: "s2") } }"#,
+        r#"successor { value @filter(op: ">", value: ["%t"]) @output(name: "s1") }"#,
+        r#"predecessor @fold @transform(op: "count") @filter(op: ">", value: ["%t"]) @output(name: "s1")"#,
+        r#"successor @optional { multiple(max: 2) @fold { value @filter(op: ">", value: ["%t"]) @output(name: "s1") } }"#,
+        r#"successor @recurse(depth: 2) { value @filter(op: ">=", value: ["%t"]) @output(name: "s1") }"#,
+    ];
+    let root = |inner: &str| format!(r#"{{ Number(max: 3) {{ value @tag(name: "t") @output {inner} }} }}"#);
+    for (i, b) in bad.iter().enumerate() {
+        vk::grid_case(format_args!("erroneous selection #{}", i));
+        check(&format!("erroneous selection alone `{b}`"), &root(b), &mut failures); n += 1;
+        for g in good {
+            check(&format!("erroneous selection `{b}` then `{g}`"), &root(&format!("{b} {g}")), &mut failures);
+            check(&format!("`{g}` then erroneous selection `{b}`"), &root(&format!("{g} {b}")), &mut failures);
+            check(&format!("erroneous selection `{b}` inside a fold next to `{g}`"), &root(&format!("multiple(max: 2) @fold {{ {b} {g} }}")), &mut failures);
+            n += 3;
+        }
+        for b2 in bad { check(&format!("two erroneous selections `{b}` `{b2}`"), &root(&format!("{b} {}", b2.replace("e1", "f1").replace("e2", "f2").replace("dup", "dup2").replace("inner", "inner2"))), &mut failures); n += 1; }
+    }
     vk::grid_done("c10_grid_frontend_never_panics", n);
     if !failures.is_empty() {
         // one entry per panic message: how many documents hit it and the first of them
